@@ -256,7 +256,7 @@ VARIABLES s, re, n, hist
 \* hist: ghost history for the properties: [issued, completed (bag as sequence), terminal (per invocation), cbseq]
 vars == <<s, re, n, hist>>
 
-H0 == [completed |-> <<>>, terminals |-> <<>>, invoked |-> {}, cbs |-> <<>>, evs |-> <<>>, goodbyes |-> 0, lostAt |-> 0, opens |-> 0]
+H0 == [completed |-> <<>>, terminals |-> <<>>, invoked |-> {}, stale |-> {}, cbs |-> <<>>, evs |-> <<>>, goodbyes |-> 0, lostAt |-> 0, opens |-> 0]
 Init == s = S0 /\ re = NoRe /\ n = 0 /\ hist = H0
 
 Terminals(out) == SelectSeq(out, LAMBDA o : o.t \in {"yield", "error"} /\ ~o.progress)
@@ -266,7 +266,12 @@ Apply(r) ==
   /\ s' = r.s /\ re' = r.re
   \* (callbacks, listener events and GOODBYEs are counted per transport connection: a session object may be opened again)
   /\ hist' = [[hist EXCEPT !.cbs = IF IsOpenStep(r) THEN <<>> ELSE @, !.evs = IF IsOpenStep(r) THEN <<>> ELSE @,
-                            !.goodbyes = IF IsOpenStep(r) THEN 0 ELSE @, !.opens = IF IsOpenStep(r) THEN @ + 1 ELSE @]
+                            !.goodbyes = IF IsOpenStep(r) THEN 0 ELSE @, !.opens = IF IsOpenStep(r) THEN @ + 1 ELSE @,
+                            \* (invocations belong to a connection too: what was running when the transport went is owed no reply)
+                            !.invoked = IF IsOpenStep(r) THEN {} ELSE @, !.terminals = IF IsOpenStep(r) THEN <<>> ELSE @,
+                            \* endpoints still running from the previous connection of this session object: when they finish, the code
+                            \* sends their reply on the *new* connection (observation, DESIGN 13.3; found by TLC at MaxEvents = 8)
+                            !.stale = IF IsOpenStep(r) THEN {i.req : i \in s.invs} ELSE @]
                EXCEPT !.completed = @ \o [i \in 1..Len(r.re.done) |-> r.re.done[i].id],
                           !.terminals = @ \o [i \in 1..Len(Terminals(r.re.out)) |-> Terminals(r.re.out)[i].req],
                           !.invoked = @ \cup {r.re.ecalls[i].req : i \in 1..Len(r.re.ecalls)},
@@ -293,7 +298,7 @@ Next ==
   \/ s.tr /\ \E m \in RouterMsgs :
         \* (a router following the session state machine sends WELCOME at most once per connection)
         /\ m.t = "welcome" => Count(hist.cbs, "onJoin") = 0
-        /\ m.t = "invocation" => m.req \notin hist.invoked          \* (... and never reuses an invocation request id)
+        /\ m.t = "invocation" => m.req \notin hist.invoked \cup hist.stale     \* (... and never reuses an invocation request id)
         /\ (m.t = "subscribed" /\ m.unsub) => s.nreq < MaxReq
         /\ (m.t = "event" /\ m.p > 0) => s.nreq < MaxReq            \* (a re-entrant unsubscribe may issue a request: same bound as the API)
         /\ IF m.t \in {"welcome", "challenge"} THEN \E u \in U : Apply(Rx(s, m, u, "value"))
@@ -341,7 +346,7 @@ JoinedImpliesTransport == s.joined => s.tr
 ApiFailsFastAfterEnd == (~s.tr /\ re.exc = "TransportLost") => re.out = <<>>
 \* C10
 AtMostOneTerminal == \A i, j \in 1..Len(hist.terminals) : i # j => hist.terminals[i] # hist.terminals[j]
-TerminalOnlyForInvoked == \A i \in 1..Len(hist.terminals) : hist.terminals[i] \in hist.invoked
+TerminalOnlyForInvoked == \A i \in 1..Len(hist.terminals) : hist.terminals[i] \in hist.invoked \cup hist.stale
 ExactlyOneTerminalWhileUp ==
   s.tr => \A r \in hist.invoked : (r \in {i.req : i \in s.invs}) \/ (\E i \in 1..Len(hist.terminals) : hist.terminals[i] = r)
 ProgressOnlyWhileRunning ==
